@@ -112,7 +112,7 @@ def _manhattan(np.ndarray[FLOAT_TYPE_T, ndim=2] X,
 
     for i in prange(n_samples, nogil=True):
         for j in range(n_features):
-            out[i] += fabs(X[i, j] - y[j])
+            out[i] += fabs(<double>X[i, j] - <double>y[j])
 
     return out.reshape(-1, 1)
 
@@ -137,7 +137,7 @@ def _euclidean(np.ndarray[FLOAT_TYPE_T, ndim=2] X,
 
     for i in prange(n_samples, nogil=True):
         for j in range(n_features):
-            out[i] += (X[i, j] - y[j])**2
+            out[i] += (<double>X[i, j] - <double>y[j])**2
 
     for i in prange(n_samples, nogil=True):
         out[i] = sqrt(out[i])
